@@ -78,10 +78,30 @@ pub struct RunOk {
     pub source: String,
 }
 
+thread_local! {
+    static AMBIENT: std::cell::Cell<usize> = const { std::cell::Cell::new(0) };
+}
+
+/// Run `f` with ambient variation `k` (see `prog::AMBIENTS`) applied to every program `run_single` renders.
+pub fn with_ambient<R>(k: usize, f: impl FnOnce() -> R) -> R {
+    AMBIENT.with(|a| a.set(k));
+    let r = f();
+    AMBIENT.with(|a| a.set(0));
+    r
+}
+
 /// render -> real pipeline -> extractor, for a single-file program
 pub fn run_single(file: &File, lang: Lang, cfg: &Cfg) -> Result<RunOk, (RunFail, String)> {
-    let source = render_file(file);
-    run_source(&source, lang, cfg)
+    let k = AMBIENT.with(|a| a.get());
+    if k == 0 {
+        let source = render_file(file);
+        return run_source(&source, lang, cfg);
+    }
+    let source = render_file(&ambient(file, k));
+    let mut r = run_source(&source, lang, cfg)?;
+    // definitions introduced by the variation itself are not the check's business
+    r.out.defs.retain(|d| !d.name().contains("Ambient"));
+    Ok(r)
 }
 
 pub fn run_source(source: &str, lang: Lang, cfg: &Cfg) -> Result<RunOk, (RunFail, String)> {
